@@ -10,8 +10,8 @@ from ..ctx import stable_hash
 
 ID = "C12"
 LEVEL = "exploration"
-TIERS = {"quick": {"shards": 16, "budget_s": 30, "runs": 110, "line_runs": 12, "stress_runs": 12},
-         "thorough": {"shards": 16, "budget_s": 480, "runs": 9000, "line_runs": 600, "stress_runs": 150}}
+TIERS = {"quick": {"shards": 16, "budget_s": 30, "runs": 100, "line_runs": 12, "stress_runs": 12, "systematic_pipelines": 2, "systematic_deviations": 1},
+         "thorough": {"shards": 16, "budget_s": 480, "runs": 9000, "line_runs": 600, "stress_runs": 150, "systematic_pipelines": 6, "systematic_deviations": 2}}
 RULE = ("The real TokenizerWorker + observer workers (recording observers, PrintWorker with captured stdout, RegionSaverWorker, "
         "AudioEventsJoinerWorker; optionally a StreamSaverWorker as reader) run under a deterministic cooperative scheduler that "
         "replaces auditok.workers.Queue and Worker.start/join: exactly one thread runs at a time, every hand-over and every "
@@ -19,7 +19,9 @@ RULE = ("The real TokenizerWorker + observer workers (recording observers, Print
         "storm; line-level pre-emption inside workers.py via sys.monitoring in 'line' runs).  No external stop is issued.  Oracle "
         "on the recorded history: each observer's message list == split() of the same input (ids 1..k, start, end, bytes), == "
         "TokenizerWorker.detections; every thread DONE; scheduler verdicts deadlock / non-termination (>200 consecutive steps "
-        "with only timeouts enabled) are violations, step/wall caps are inconclusive.  A real-time stress mode (real Queue, "
+        "with only timeouts enabled) are violations, step/wall caps are inconclusive.  Systematic core: for tiny pipelines (3-5 "
+        "blocks, 1-2 observers) EVERY schedule with at most k deviations from the default 'keep running' policy is enumerated "
+        "(k=1 quick, k=2 thorough; a deviation = switching thread or firing a timeout).  A real-time stress mode (real Queue, "
         "switch interval 1e-6 s, tiny observer timeouts, random sleeps) complements it.  Non-trivial = >=1 detection and >=1 "
         "observer; distinct = distinct decision trace.")
 ASSUMPTIONS = [
@@ -134,6 +136,41 @@ def one(ctx, case, tmpdir, decisions=None):
                     "first_decisions": [list(t[1:3]) for t in s.trace[:25]]})
 
 
+def systematic(ctx, conf, tmpdir):
+    """all schedules with <= k deviations from the default policy, for tiny pipelines."""
+    from ..sched import systematic as SY
+
+    rng = ctx.rng("systematic")
+    shapes = [(["rec"], False), (["rec", "rec"], False), (["rec", "joiner"], False), (["rec"], True), (["print", "rec"], False),
+              (["regionsaver"], False)]
+    for n in range(conf["systematic_pipelines"]):
+        observers, saver = shapes[(ctx.shard + n) % len(shapes)]
+        case = P.small_pipeline_case(rng, rng.choice((3, 4, 5)), observers, saver)
+        built = AC.build_audio(case)
+        if built is None:
+            continue
+        data, _ = built
+        expected = P.split_reference(data, case)
+
+        def run_fn(strat):
+            P.clean_dir(tmpdir)
+            return P.run_pipeline(case, data, tmpdir, strategy=strat)
+
+        ok = True
+        for devs, strat, res in SY.enumerate_schedules(run_fn, conf["systematic_deviations"], ctx.out_of_time):
+            s = res.sched
+            ctx.case(stable_hash(["sys", case["v"], observers, saver, s.decisions]), bool(expected))
+            ctx.count("systematic_schedules")
+            ctx.count("steps", s.steps)
+            ctx.count("timeouts_fired", s.timeouts_fired)
+            ctx.count("context_switches", s.context_switches)
+            if not check_run(ctx, dict(case, deviations={str(k): v for k, v in devs.items()}), data, tmpdir, res, expected):
+                ok = False
+                break
+        if ok and SY.enumerate_schedules.last_complete:
+            ctx.count("systematic_pipelines_fully_enumerated")
+
+
 def stress(ctx, conf, tmpdir):
     from ..sched import stress as ST
 
@@ -185,6 +222,7 @@ def run_shard(ctx):
             one(ctx, case, tmpdir)
             if ctx.out_of_time():
                 break
+        systematic(ctx, conf, tmpdir)
         stress(ctx, conf, tmpdir)
     finally:
         shutil.rmtree(tmpdir, ignore_errors=True)
@@ -201,7 +239,7 @@ def replay(ctx, case):
 def inconclusive(merged, tier):
     c = merged["counters"]
     need = ["scheduled_runs", "messages_checked", "timeouts_fired", "context_switches", "line_mode_runs", "line_preemptions",
-            "stress_runs", "stress_messages_checked", "observers_checked_rec", "observers_checked_print",
+            "stress_runs", "stress_messages_checked", "systematic_schedules", "systematic_pipelines_fully_enumerated", "observers_checked_rec", "observers_checked_print",
             "observers_checked_regionsaver", "observers_checked_joiner", "runs_with_stream_saver", "runs_with_long_bursts_of_detections"] + ["strategy_" + s for s in P.S.NAMES]
     out = [f"monitor never observed {k}" for k in need if c.get(k, 0) == 0]
     if c.get("inconclusive_runs", 0) > max(3, c.get("scheduled_runs", 0) // 50):
@@ -211,6 +249,7 @@ def inconclusive(merged, tier):
 
 def evidence_extra(merged, tier):
     c = merged["counters"]
-    return {"distinct_decision_traces": merged["distinct_nontrivial"], "scheduler_steps": c.get("steps", 0),
+    return {"systematic_core": f"all schedules with <= {TIERS[tier]['systematic_deviations']} deviations for {c.get('systematic_pipelines_fully_enumerated', 0)} tiny pipelines ({c.get('systematic_schedules', 0)} schedules)",
+            "distinct_decision_traces": merged["distinct_nontrivial"], "scheduler_steps": c.get("steps", 0),
             "context_switches": c.get("context_switches", 0), "queue_wait_timeouts_fired": c.get("timeouts_fired", 0),
             "max_queue_depth_seen": c.get("max:queue_depth", 0), "workers_py_lines_preempted_at": c.get("max:workers_py_lines_seen", 0)}
